@@ -1,6 +1,7 @@
 package model
 
 import (
+	"errors"
 	"fmt"
 
 	structform "github.com/elastic/go-structform"
@@ -115,26 +116,48 @@ func (o *OrderedKV) Expand() gotype.UnfoldState { return &orderedKVState{to: o} 
 
 type orderedKVState struct {
 	gotype.BaseUnfoldState
-	to *OrderedKV
+	to   *OrderedKV
+	open bool
 }
 
+var errKVObjectExpected = errors.New("OrderedKV: an object of strings is expected")
+
+// (strict: anything but an object start is refused while no object is open -
+// a user state that swallowed a scalar there without calling Done would leave
+// the library's stacks in a state only it knows about)
 func (s *orderedKVState) OnObjectStart(ctx gotype.UnfoldCtx, _ int, _ structform.BaseType) error {
+	if s.open {
+		return errKVObjectExpected
+	}
+	s.open = true
 	s.to.Keys, s.to.Vals = nil, nil
 	return nil
 }
 func (s *orderedKVState) OnKey(ctx gotype.UnfoldCtx, key string) error {
+	if !s.open {
+		return errKVObjectExpected
+	}
 	s.to.Keys = append(s.to.Keys, key) // retained as delivered
 	return nil
 }
 func (s *orderedKVState) OnString(ctx gotype.UnfoldCtx, str string) error {
+	if !s.open {
+		return errKVObjectExpected
+	}
 	s.to.Vals = append(s.to.Vals, str)
 	return nil
 }
 func (s *orderedKVState) OnNil(ctx gotype.UnfoldCtx) error {
+	if !s.open {
+		return errKVObjectExpected
+	}
 	s.to.Vals = append(s.to.Vals, "")
 	return nil
 }
 func (s *orderedKVState) OnObjectFinished(ctx gotype.UnfoldCtx) error {
+	if !s.open {
+		return errKVObjectExpected
+	}
 	ctx.Done()
 	return nil
 }
@@ -1868,6 +1891,13 @@ var Catalogue = []TypeEntry{
 		}
 		return v
 	})),
+	// pointer elements of a type that expands itself (gotype.Expander on the pointer receiver)
+	mk("[]*OrderedKV", true, func(c *simkit.Choices) []*OrderedKV {
+		return genSlice(c, func(c *simkit.Choices) *OrderedKV { o := genOrderedKV(c); return &o })
+	}),
+	mk("map[string]*OrderedKV", true, func(c *simkit.Choices) map[string]*OrderedKV {
+		return genMap(c, func(c *simkit.Choices) *OrderedKV { o := genOrderedKV(c); return &o })
+	}),
 	// pointer ELEMENTS of types that have user-defined unfolders
 	mk("[]*Label", true, func(c *simkit.Choices) []*Label {
 		return genSlice(c, func(c *simkit.Choices) *Label { return &Label{S: genStr(c)} })
@@ -1931,7 +1961,7 @@ var families = map[string][]string{
 	"colls":  {"Colls", "Nest2", "NamedPrims", "[]int16", "map[string]uint16", "[][]string"},
 	"ints": {"[]int8", "[]int16", "[]int32", "[]int64", "[]uint8", "[]uint16", "[]uint32", "[]uint64", "[]uint", "[]int", "SmallPtrs", "[3]int", "ArrHolder",
 		"map[string]int8", "map[string]int16", "map[string]int32", "map[string]int64", "map[string]uint", "map[string]uint8", "map[string]uint16", "map[string]uint32", "map[string]uint64", "map[string]float32", "map[string]float64", "[]float32", "[]float64"},
-	"kv":     {"OrderedKV", "WithKV", "map[string]string", "Strs"},
+	"kv":     {"[]*OrderedKV", "map[string]*OrderedKV", "OrderedKV", "WithKV", "map[string]string", "Strs"},
 	"arrays": {"Triple", "Pair", "Quad", "[]interface{}-of-named-arrays", "[3]int", "ArrHolder", "[]interface{}"},
 	"bad":    {"BadField", "HasBad", "[]BadField", "Simple", "Inner"},
 	"label":  {"Label", "Labeled", "Strs", "Prims", "PInt16", "[]PUint32", "IntList", "Lists", "[]*Label", "map[string]*Label", "[]*Score", "[]*PInt16", "map[string]*IntList"},
@@ -1972,7 +2002,7 @@ func PickRelated(c *simkit.Choices, n int, forUnfold bool) []*TypeEntry {
 // it is (measured: 6000 generated values per type), which gives an exact
 // ground truth for complete matching documents.
 var inexactRoundTrip = map[string]bool{"interface{}": true, "[]interface{}": true, "map[string]interface{}": true, "Tagged": true, "Strs": true,
-	"[]map[string]interface{}": true, "OmitAll": true, "local-A.record": true, "Label": true, "Labeled": true, "Prims": true, "PInt16": true, "[]PUint32": true, "IntList": true, "Lists": true, "[]*Label": true, "map[string]*Label": true, "[]*PInt16": true, "map[string]*IntList": true}
+	"[]map[string]interface{}": true, "OmitAll": true, "local-A.record": true, "Label": true, "Labeled": true, "Prims": true, "PInt16": true, "[]PUint32": true, "IntList": true, "Lists": true, "[]*Label": true, "map[string]*Label": true, "[]*PInt16": true, "map[string]*IntList": true, "[]*OrderedKV": true, "map[string]*OrderedKV": true}
 
 // ExactRoundTrip reports whether unfolding the fold of a value of this type
 // into a zero target must reproduce the value (nil and empty identified).
